@@ -47,8 +47,8 @@ CONSTANTS MaxBufs,     \* number of allocations in a behaviour
           KeyStrides, Finalizer, CheckBases
 
 VARIABLES bufs, views, cache, last, hist,
-          guarded    \* ghost: the <<item, array>> pairs that bypassed the cache although the array itself is read-only (its
-                     \* buffer is writeable): the calls a design that looks at the argument's own flag only would have cached
+          guarded    \* ghost: <<item, array, content version>> of the calls that bypassed the cache although the array itself is
+                     \* read-only (its buffer is writeable): what a design that looks at the argument's own flag only would have cached
 vars == <<bufs, views, cache, last, hist, guarded>>
 \* identity of a state for the search: everything but the route by which it was reached
 StateView == <<bufs, views, cache, last, guarded>>
@@ -135,7 +135,7 @@ CallWith(t, v, how, res, cache2) ==
     /\ UNCHANGED <<bufs, views>>
 CallBypass(t, v) == /\ Room /\ v \in LiveViews /\ Bypass(v)
                     /\ CallWith(t, v, "bypass", Image(t, v), cache)
-                    /\ guarded' = IF views[v].ro THEN guarded \cup {<<t, v>>} ELSE guarded
+                    /\ guarded' = IF views[v].ro THEN guarded \cup {<<t, v, bufs[views[v].buf].ver>>} ELSE guarded
 CallHit(t, v) == /\ Room /\ v \in LiveViews /\ ~Bypass(v)
                  /\ \E e \in cache : e.key = Key(t, v) /\ CallWith(t, v, "hit", e.val, cache)
                  /\ UNCHANGED guarded
